@@ -182,6 +182,11 @@ int32_t tls13ImportPublicValue(ssl_t *ssl,
                 ssl->sec.dhKeyPub);
         if (rc < 0)
         {
+            /* psDhImportPubKey leaves nothing allocated on failure and may
+               not have initialized the key at all: do not keep it for
+               psDhClearKey at session deletion */
+            psFree(ssl->sec.dhKeyPub, ssl->hsPool);
+            ssl->sec.dhKeyPub = NULL;
             psTraceErrr("Could not import peer DHE public value\n");
             goto out_handshake_failure;
         }
